@@ -1,9 +1,9 @@
 import ZarrsModel.Lemmas.ShardPEBasic
-/- helper lemmas for C05, part 2: the folds of `partialEncode`, the new index position by position -/
+/- helper lemmas for C05, part 2: the folds of `partialEncodePinned`, the new index position by position -/
 namespace Zarrs.ShardPE
 open Zarrs Zarrs.Codec Zarrs.Shard
 
-/-! ### the two folds of `partialEncode` -/
+/-! ### the two folds of `partialEncodePinned` -/
 
 def step1 (ix : List (Nat × Nat)) (u : Nat × Option Bytes) : List (Nat × Nat) := setEntry ix u.1 (sentinel, sentinel)
 
@@ -52,7 +52,7 @@ theorem foldl_congr_step2 (f : List (Nat × Nat) × Bytes × Nat → Nat × Opti
 
 theorem partialEncode_eq (c : Cfg) (v : Option Bytes) (us : List (Nat × Option Bytes)) (idx : List (Nat × Nat))
     (h : currentIndex c v = some idx) :
-    partialEncode c v us =
+    partialEncodePinned c v us =
       (let dead := (idxDead idx us).all (fun e => !isLive e)
        let v1 := if dead then none else v
        let maxData := if dead then 0 else liveEnd idx
@@ -60,7 +60,7 @@ theorem partialEncode_eq (c : Cfg) (v : Option Bytes) (us : List (Nat × Option 
        if (idxNew idx us off).all (fun e => !isLive e) then some none
        else if c.indexAtEnd then some (writeAt v1 off (dataNew us ++ encodeIndex c (idxNew idx us off)))
        else some (writeAt (writeAt v1 0 (encodeIndex c (idxNew idx us off))) off (dataNew us))) := by
-  unfold partialEncode
+  unfold partialEncodePinned
   rw [h]
   simp only
   rw [show (fun (ix : List (Nat × Nat)) (u : Nat × Option Bytes) => setEntry ix u.1 (sentinel, sentinel)) = step1 from rfl,
